@@ -51,6 +51,19 @@ fn norm_tasks(mut v: Vec<(Uuid, TaskMap)>) -> String {
     format!("{v:?}")
 }
 
+/// Canonical text of an operation list: a deleted task's old content is a map and is printed in
+/// key order (the Debug text of a HashMap depends on the instance).
+fn norm_ops(ops: &[Operation]) -> String {
+    let v: Vec<String> = ops
+        .iter()
+        .map(|o| match o {
+            Operation::Delete { uuid, old_task } => format!("Delete {{ uuid: {uuid}, old_task: {:?} }}", old_task.iter().collect::<BTreeMap<_, _>>()),
+            other => format!("{other:?}"),
+        })
+        .collect();
+    format!("{v:?}")
+}
+
 fn exec(txn: &mut dyn StorageTxn, c: &Call) -> Result<String, String> {
     let e = |e: taskchampion::Error| e.to_string();
     Ok(match c.clone() {
@@ -67,8 +80,8 @@ fn exec(txn: &mut dyn StorageTxn, c: &Call) -> Result<String, String> {
         }
         Call::BaseVersion => format!("{:?}", block_on(txn.base_version()).map_err(e)?),
         Call::SetBaseVersion(v) => format!("{:?}", block_on(txn.set_base_version(v)).map_err(e)?),
-        Call::GetTaskOperations(u) => format!("{:?}", block_on(txn.get_task_operations(u)).map_err(e)?),
-        Call::UnsyncedOperations => format!("{:?}", block_on(txn.unsynced_operations()).map_err(e)?),
+        Call::GetTaskOperations(u) => norm_ops(&block_on(txn.get_task_operations(u)).map_err(e)?),
+        Call::UnsyncedOperations => norm_ops(&block_on(txn.unsynced_operations()).map_err(e)?),
         Call::NumUnsyncedOperations => format!("{:?}", block_on(txn.num_unsynced_operations()).map_err(e)?),
         Call::AddOperation(o) => format!("{:?}", block_on(txn.add_operation(o)).map_err(e)?),
         Call::RemoveOperation(o) => format!("{:?}", block_on(txn.remove_operation(o)).map_err(e)?),
@@ -145,7 +158,7 @@ impl CM {
                 self.base = v;
                 Some("()".into())
             }
-            Call::UnsyncedOperations => Some(format!("{:?}", self.ops.iter().filter(|o| !o.0).map(|o| o.1.clone()).collect::<Vec<_>>())),
+            Call::UnsyncedOperations => Some(norm_ops(&self.ops.iter().filter(|o| !o.0).map(|o| o.1.clone()).collect::<Vec<_>>())),
             Call::NumUnsyncedOperations => Some(format!("{:?}", self.ops.iter().filter(|o| !o.0).count())),
             Call::AddOperation(o) => {
                 self.ops.push((false, o));
@@ -167,7 +180,7 @@ impl CM {
                 }
                 Some("()".into())
             }
-            Call::GetTaskOperations(u) => Some(format!("{:?}", self.ops.iter().filter(|o| o.1.get_uuid() == Some(u)).map(|o| o.1.clone()).collect::<Vec<_>>())),
+            Call::GetTaskOperations(u) => Some(norm_ops(&self.ops.iter().filter(|o| o.1.get_uuid() == Some(u)).map(|o| o.1.clone()).collect::<Vec<_>>())),
             Call::GetWorkingSet => Some(format!("{:?}", self.ws)),
             Call::AddToWorkingSet(u) => {
                 self.norm_ws();
@@ -222,13 +235,25 @@ fn gen_call(rng: &mut Rng, cm: &CM, pool: &[Uuid]) -> Call {
         15 | 16 | 17 => Call::AddOperation(match rng.below(5) {
             0 => Operation::UndoPoint,
             1 => Operation::Create { uuid: u },
-            2 => Operation::Delete { uuid: u, old_task: [(s(rng), s(rng))].into_iter().collect() },
+            2 => Operation::Delete { uuid: u, old_task: (0..rng.below(6)).map(|_| (s(rng), s(rng))).collect() },
             _ => Operation::Update { uuid: u, property: s(rng), old_value: if rng.chance(1, 2) { Some(s(rng)) } else { None }, value: if rng.chance(1, 4) { None } else { Some(s(rng)) }, timestamp: ts(rng.range(0, 99)) },
         }),
         18 => {
             // contract: exact last operation and only while it is unsynced; also exercise refusals
             match cm.ops.last() {
-                Some((false, op)) if rng.chance(3, 4) => Call::RemoveOperation(op.clone()),
+                // an *equal* operation, not the same value: a deleted task's old content is a map,
+                // rebuilt here entry by entry (equality must not depend on how it was assembled)
+                Some((false, op)) if rng.chance(3, 4) => Call::RemoveOperation(match op {
+                    Operation::Delete { uuid, old_task } => {
+                        let mut entries: Vec<(String, String)> = old_task.iter().map(|(k, v)| (k.clone(), v.clone())).collect();
+                        entries.sort();
+                        if rng.chance(1, 2) {
+                            entries.reverse();
+                        }
+                        Operation::Delete { uuid: *uuid, old_task: entries.into_iter().collect() }
+                    }
+                    other => other.clone(),
+                }),
                 _ => Call::RemoveOperation(Operation::Create { uuid: Uuid::from_u128(0xdead_beef) }),
             }
         }
@@ -554,7 +579,7 @@ pub fn run(ctx: &Ctx) -> Outcome {
     }
     Outcome {
         level: "exploration",
-        rule: "scripts: 2-9 transactions of 1-12 random StorageTxn calls over all 20 methods (hostile strings, operations of every kind, contract guards: set_working_set_item only inside the current length, remove_operation exact-last-unsynced or a deliberate refusal, no call after commit), commit or abandon, SQLite close/reopen at random points; every result compared between the backends and with the contract model; fixtures: databases built with plain SQL under the 0.8 / 0.9 / (0,1) / (0,2) schemas, read-only refusal before upgrade, content after upgrade (twice), read-only reads and refusals, missing database; distinct by call trail".into(),
+        rule: "scripts: 2-9 transactions of 1-12 random StorageTxn calls over all 20 methods (hostile strings, operations of every kind, contract guards: set_working_set_item only inside the current length, remove_operation with an operation equal to (but built independently of) the last unsynced one, or a deliberate refusal, no call after commit), commit or abandon, SQLite close/reopen at random points; every result compared between the backends and with the contract model; fixtures: databases built with plain SQL under the 0.8 / 0.9 / (0,1) / (0,2) schemas, read-only refusal before upgrade, content after upgrade (twice), read-only reads and refusals, missing database; distinct by call trail".into(),
         exhaustive: None,
         acc,
         assumptions: vec![
